@@ -168,6 +168,8 @@ class Ctx:
         self.divergences = []
         self.direct_failures = []
         self.dist = {}
+        self.missing_groups = []     # API groups absent from the driver (their model does not build)
+        self.model_skipped = 0
         self.exhaustive_notes = []
         self.t0 = time.time()
         self.budget_s = None
@@ -192,6 +194,9 @@ class Ctx:
             ires = run_impl(lambda: f.impl(args))
         if f.model is not None:
             mres = f.model(self.m, args)
+            if self.missing_groups and mres == ("err", "ModelNoSuchApi"):
+                mres = None          # that part of the model is not in the driver; reported once, as a proof case
+                self.model_skipped += 1
         outcome = None
         if ires is not None:
             outcome = ires[1] if ires[0] == "err" else "ok"
@@ -289,11 +294,15 @@ def strip_comments(txt):
     return "".join(out)
 
 
-def gen_api():
-    """Extract/Api.v = concatenation of every Extract/Api_<group>.v table."""
+def gen_api(exclude=()):
+    """Extract/Api.v = concatenation of every Extract/Api_<group>.v table (minus the groups in [exclude]:
+    those whose model no longer compiles, so that the other groups still get a driver built from the
+    current sources instead of a stale one)."""
     d = os.path.join(COQ, "Extract")
-    groups = sorted(f[4:-2] for f in os.listdir(d) if f.startswith("Api_") and f.endswith(".v"))
-    txt = "(* GENERATED by harness/framework.py -- do not edit *)\n" \
+    groups = sorted(f[4:-2] for f in os.listdir(d) if f.startswith("Api_") and f.endswith(".v")
+                    and f[4:-2] not in exclude)
+    txt = "(* GENERATED by harness/framework.py -- do not edit%s *)\n" % \
+          ((" -- groups left out because they do not build: " + " ".join(sorted(exclude))) if exclude else "") + \
           "From Coq Require Import NArith List String.\n" \
           "From BU Require Import Base.Exn Base.Val Extract.ApiCommon.\n"
     for g in groups:
@@ -322,6 +331,7 @@ class BuildResult:
         self.log = ""
         self.forbidden = []
         self.extract_ok = False
+        self.missing_groups = []   # API groups left out of the driver because their model does not build
         self.wall = 0.0
 
 
@@ -362,6 +372,25 @@ def build(clean=False, targets=None):
             if not br.failed:
                 br.failed["make"] = out[-2000:]
         br.forbidden = forbidden_scan()
+        if br.failed and not targets:
+            # a model that no longer compiles must not leave a stale driver behind: rebuild Api.v without the
+            # groups that depend on a failed file
+            d = os.path.join(COQ, "Extract")
+            bad = []
+            for f in sorted(os.listdir(d)):
+                if f.startswith("Api_") and f.endswith(".v"):
+                    rel = "Extract/" + f
+                    if rel in br.failed or (deps_of(rel) & set(br.failed)):
+                        bad.append(f[4:-2])
+            if "Extract/ApiCommon.v" in br.failed or (deps_of("Extract/ApiCommon.v") & set(br.failed)):
+                bad = []        # nothing can be extracted at all; extract_ok stays False below
+                br.failed.setdefault("Extract/Api.v", "Extract/ApiCommon.v or a dependency of it does not build")
+            if bad:
+                br.missing_groups = bad
+                gen_api(exclude=bad)
+                rc, out = sh("timeout 3000 make -f Makefile.coq -k -j16 Extract/Api.vo", cwd=COQ, timeout=3100)
+                if rc != 0:
+                    br.failed["Extract/Api.v"] = out[-2000:]
         # extraction + driver
         api_vo = os.path.join(COQ, "Extract", "Api.vo")
         drv = os.path.join(COQ, "Extract", "driver")
@@ -409,10 +438,19 @@ def enclosing_statement(rel, line):
     return name
 
 
+_DEP_CACHE = {}
+
+
 def deps_of(rel):
     """Transitive .v dependencies (within the project) of a source, via coqdep output."""
-    rc, out = sh("coqdep -Q . BU %s" % " ".join(coq_sources()), cwd=COQ)
-    dep = {}
+    srcs = tuple(coq_sources())
+    if _DEP_CACHE.get("srcs") == srcs:
+        dep = _DEP_CACHE["dep"]
+        out = ""
+    else:
+        rc, out = sh("coqdep -Q . BU %s" % " ".join(srcs), cwd=COQ)
+        dep = {}
+        _DEP_CACHE["srcs"], _DEP_CACHE["dep"] = srcs, dep
     for ln in out.split("\n"):
         if ":" not in ln:
             continue
@@ -578,6 +616,7 @@ def main(argv):
     if m is None:   # run the implementation-side direct checks only
         funcs = {k: Func(model=None, impl=f.impl, direct=f.direct) for k, f in mod.FUNCS.items()}
     ctx = Ctx(prop, tier, seed, funcs, m)
+    ctx.missing_groups = list(br.missing_groups)
     ctx.budget_s = getattr(mod, "BUDGET", {"quick": 150, "thorough": 1500})[tier]
     # corpus first
     cpath = os.path.join(VERIF, "corpus", prop + ".json")
@@ -591,6 +630,9 @@ def main(argv):
         cases.append({"kind": "harness", "what": "generator crashed: " + traceback.format_exc()[-1500:]})
     if m is not None:
         m.close()
+    if ctx.model_skipped:
+        cases.append({"kind": "proof", "what": "model group(s) %s no longer build (%s): %d model evaluations this property "
+                      "needs could not be run" % (br.missing_groups, sorted(br.failed)[:6], ctx.model_skipped)})
 
     # 3. known findings
     known = load_known(prop)
@@ -654,6 +696,8 @@ def main(argv):
         "model_calls": 0 if m is None else m.calls,
         "oracle_calls": 0 if m is None else m.oracle_calls,
         "gen_changed": br.changed_gen,
+        "input_distribution": ctx.dist,
+        "missing_model_groups": br.missing_groups,
         "build_wall_s": round(br.wall, 1),
         "notes": notes,
     }
